@@ -274,16 +274,16 @@ package ast
 //@ func getProcessExpressionTokens [C08 C15]
 //@   noframe
 //@   requires tokWf(tokens) && 0 <= index && index < len(tokens)
-//@   ensures index: index <= result.1 && result.1 <= len(tokens)
+//@   ensures index: index <= result.1 && result.1 < len(tokens)
 //@   ensures nonnil: forall k :: { result.0[k] } 0 <= k && k < len(result.0) ==> result.0[k] != nil
-//@   ensures nonempty: result.1 > index ==> true
-//@   loop 1 invariant index <= token_index && token_index <= len(tokens) && tokWf(tokens) && fresh(exprTokens)
+//@   ensures nonempty: len(result.0) > 0 ==> result.1 > index
+//@   loop 1 invariant index <= token_index && token_index < len(tokens) && tokWf(tokens) && fresh(exprTokens) && (len(exprTokens) > 0 ==> token_index > index)
 //@   loop 1 invariant forall k :: { exprTokens[k] } 0 <= k && k < len(exprTokens) ==> exprTokens[k] != nil
 //@   loop 1 decreases len(tokens) - token_index
 
 //@ func parse_expr_pratt [C08 C11]
 //@   noframe
-//@   requires (forall k :: { tokens[k] } 0 <= k && k < len(tokens) ==> tokens[k] != nil) && 0 <= index && index < len(tokens)
+//@   requires (forall k :: { tokens[k] } 0 <= k && k < len(tokens) ==> tokens[k] != nil) && len(tokens) >= 1 && 0 <= index && index <= len(tokens)
 //@   ensures nohole: result.2 == nil ==> wfbox(result.0)
 //@   ensures index: result.2 == nil ==> index < result.1 && result.1 <= len(tokens)
 //@   loop 1 invariant index < token_index && token_index <= len(tokens) && wfbox(lhs)
